@@ -27,6 +27,13 @@ SCHEMA = [
     'create function fn_insert() -> T { set volatility := "Modifying"; '
     'using (insert T { n := "f" }) }',
     'create global cur -> int64',
+    # volatility of these is left to inference on purpose
+    'create function fn_with(x: str) -> int64 '
+    'using (with u := (update T filter .n = x set { n := "h" }) select count(u))',
+    'create function leaf() -> int64 using (1)',
+    'create function mid() -> int64 using (leaf() + 1)',
+    'create function top() -> int64 using (mid() + 1)',
+    'alter function leaf() using (count((insert T { n := "leaf" })))',
     'create function fn_update(x: str) -> set of T { set volatility := "Modifying"; '
     'using (update T filter .n = x set { n := "g" }) }',
 ]
@@ -55,13 +62,15 @@ LEAF = {
     'delete': '(delete T filter .n = "d")',
     'fn_insert': 'fn_insert()',
     'fn_update': 'fn_update("q")',
+    'fn_withdml': '(select T filter .n = <str>fn_with("q"))',
+    'fn_chain': '(select T filter .n = <str>top())',
 }
 
 
 def render_query(leaf, ctx):
     L = LEAF[leaf]
     if ctx == 'top':
-        return f'select {L}' if leaf in ('none', 'fn_insert', 'fn_update') else L[1:-1]
+        return f'select {L}' if leaf in ('none', 'fn_insert', 'fn_update', 'fn_withdml', 'fn_chain') else L[1:-1]
     if ctx == 'with_binding':
         return f'with x := {L} select x'
     if ctx == 'for_body':
